@@ -405,25 +405,30 @@ fn head_instance(n_in: usize) {
     core::mem::forget(state);
 }
 
-#[kani::proof]
-#[kani::unwind(6)]
-#[kani::stub(crate::inflate::inftrees::inflate_table, stub_table_unreachable)]
-#[kani::stub(core::fmt::write, stub_fmt_write)]
-#[kani::stub(core::panicking::panic_nounwind, stub_pn)]
-#[kani::stub(core::panicking::panic_nounwind_fmt, stub_pnf)]
-#[kani::stub(crate::crc32::crc32, stub_crc_nondet)]
-#[kani::stub(crate::inflate::State::len_and_friends, stub_laf_suspends)]
-#[kani::stub(crate::inflate::writer::Writer::copy_match, stub_copy_match_unreachable)]
-#[kani::stub(crate::inflate::writer::Writer::extend_from_window, stub_efw_unreachable)]
-#[kani::stub(<[u16]>::fill, stub_fill_unreachable)]
-fn ki5a_head() {
-    head_instance(0);
-    head_instance(1);
-    head_instance(2);
-    head_instance(3);
-    head_instance(5);
-    head_instance(6);
+macro_rules! head_harness {
+    ($name:ident, $n_in:expr) => {
+        #[kani::proof]
+        #[kani::unwind(6)]
+        #[kani::stub(crate::inflate::inftrees::inflate_table, stub_table_unreachable)]
+        #[kani::stub(core::fmt::write, stub_fmt_write)]
+        #[kani::stub(core::panicking::panic_nounwind, stub_pn)]
+        #[kani::stub(core::panicking::panic_nounwind_fmt, stub_pnf)]
+        #[kani::stub(crate::crc32::crc32, stub_crc_nondet)]
+        #[kani::stub(crate::inflate::State::len_and_friends, stub_laf_suspends)]
+        #[kani::stub(crate::inflate::writer::Writer::copy_match, stub_copy_match_unreachable)]
+        #[kani::stub(crate::inflate::writer::Writer::extend_from_window, stub_efw_unreachable)]
+        #[kani::stub(<[u16]>::fill, stub_fill_unreachable)]
+        fn $name() {
+            head_instance($n_in);
+        }
+    };
 }
+head_harness!(ki5a_head_n0, 0);
+head_harness!(ki5a_head_n1, 1);
+head_harness!(ki5a_head_n2, 2);
+head_harness!(ki5a_head_n3, 3);
+head_harness!(ki5a_head_n5, 5);
+head_harness!(ki5a_head_n6, 6);
 
 /// inflate::set_dictionary: state check, Adler-32 identifier check, window load, HAVE_DICT; then Dict -> Type.
 #[kani::proof]
